@@ -220,6 +220,12 @@ type c13Case struct {
 	ppub     int // 0 accept 1 error 2 panic
 	ppubSpec *errSpec
 	metaKind int
+	// state of the message's context: 0 live; 1 already cancelled when delivered; 2 deadline already
+	// exceeded when delivered; 3 cancelled by the handler (SetContext of a cancelled child);
+	// 4 cancelled from outside while the handler runs; 5 its deadline passes while the handler runs
+	ctxKind int
+	ctx     context.Context
+	cancel  context.CancelFunc
 	payload  []byte
 
 	mu       sync.Mutex
@@ -363,6 +369,17 @@ func (g *c13Group) handler(msg *message.Message) ([]*message.Message, error) {
 	}
 	c.rec("call")
 	g.enter()
+	switch c.ctxKind {
+	case 3:
+		ctx, cancel := context.WithCancel(msg.Context())
+		msg.SetContext(ctx)
+		cancel()
+	case 4:
+		go c.cancel()
+		<-c.ctx.Done()
+	case 5:
+		<-c.ctx.Done()
+	}
 	for _, a := range c.acts {
 		switch a[0] {
 		case "setmeta":
@@ -575,6 +592,20 @@ func (g *c13Group) prepare(c *c13Case) {
 	c.produced = map[int]*message.Message{}
 	c.routerDone = make(chan struct{})
 	c.msg = message.NewMessage(c.ID, c.payload)
+	switch c.ctxKind {
+	case 1:
+		c.ctx, c.cancel = context.WithCancel(context.Background())
+		c.cancel()
+	case 2:
+		c.ctx, c.cancel = context.WithDeadline(context.Background(), time.Now().Add(-time.Hour))
+	case 4:
+		c.ctx, c.cancel = context.WithCancel(context.Background())
+	case 5:
+		c.ctx, c.cancel = context.WithTimeout(context.Background(), 2*time.Millisecond)
+	}
+	if c.ctx != nil {
+		c.msg.SetContext(c.ctx) // the Router derives its value context from this one
+	}
 	switch c.metaKind {
 	case 0:
 		c.msg.Metadata = nil
@@ -618,6 +649,9 @@ func (g *c13Group) prepare(c *c13Case) {
 		c.PK = 0
 	}
 	c.Acts = []interface{}{}
+	if c.ctxKind >= 3 {
+		c.Acts = append(c.Acts, []interface{}{"cancelctx"})
+	}
 	for _, a := range c.acts {
 		switch a[0] {
 		case "setmeta":
@@ -652,6 +686,7 @@ func (g *c13Group) prepare(c *c13Case) {
 		"mode": map[bool]string{true: "inside a Router", false: "middleware called directly"}[g.router], "poison_topic": g.topic,
 		"filter": g.filter.String(), "poison_publisher": c.PP[0], "handler": c.h, "handler_error": es,
 		"handler_outcome": []string{"returns", "fails", "panics"}[c.outKind], "outs": outs, "acts": c.acts,
+		"message_context": []string{"live", "already cancelled at delivery", "deadline already exceeded at delivery", "cancelled by the handler", "cancelled from outside while the handler runs", "deadline passes while the handler runs"}[c.ctxKind],
 		"pre_settle": []string{"none", "ack", "nack"}[c.Pre], "metadata": []string{"nil map", "empty", "{a:1}", "already poisoned (all four keys + z:\"\")", "{reason_poisoned:\"\", b:2}", "{\"\":..., topic_poisoned:in0}"}[c.metaKind],
 		"payload_len": len(c.payload), "router_publisher": []string{"accept", "error", "panic"}[c.PB],
 		"middleware_placement": []string{"router-level", "handler-level (same value on every handler)", "direct call"}[g.place],
@@ -805,6 +840,9 @@ func (g *c13Group) run(rt *hookrt.Runtime) error {
 				c.mu.Lock()
 				c.MF = g.snap(c.msg)
 				c.mu.Unlock()
+				if c.cancel != nil {
+					c.cancel()
+				}
 			}(c)
 		}
 		wg.Wait()
@@ -872,6 +910,7 @@ func c13Generate(rng *rand.Rand, tier string) []*c13Group {
 		c.Pre = []int{0, 0, 0, 1, 2}[pick(5)]
 		c.acts = c13Acts[pick(len(c13Acts))]
 		c.metaKind = []int{0, 1, 2, 3, 3, 4, 5, 2}[pick(8)]
+		c.ctxKind = []int{0, 0, 0, 0, 1, 2, 3, 4, 5, 4}[pick(10)]
 		c.payload = c13Payloads[pick(len(c13Payloads))]
 		c.PB = []int{0, 0, 1, 2}[pick(4)]
 		c.ppub = []int{0, 0, 1, 2}[pick(4)]
@@ -919,6 +958,17 @@ func c13Generate(rng *rand.Rand, tier string) []*c13Group {
 				for pp := 0; pp < 3; pp++ {
 					c := newCase(g)
 					c.metaKind, c.ppub, c.Pre = mk, pp, 0
+					fix(g, c)
+				}
+			}
+			// every state of the message context with a failing handler x every poison publisher behaviour
+			for ck := 1; ck <= 5; ck++ {
+				for pp := 0; pp < 3; pp++ {
+					c := newCase(g)
+					c.ctxKind, c.ppub, c.Pre = ck, pp, 0
+					if c.metaKind == 0 {
+						c.metaKind = 2
+					}
 					fix(g, c)
 				}
 			}
